@@ -177,7 +177,10 @@ class MessagePackDocument(HierDictDocument):
 
         mrs, = ctx.in_body_doc.keys()
         if not six.PY2 and isinstance(mrs, bytes):
-            mrs = mrs.decode(self.key_encoding)
+            try:
+                mrs = mrs.decode(self.key_encoding)
+            except UnicodeDecodeError:
+                raise ValidationError(mrs, "Invalid method name %r")
 
         return '{%s}%s' % (self.app.interface.get_tns(), mrs)
 
@@ -251,8 +254,12 @@ class MessagePackRpc(MessagePackDocument):
 
         if not six.PY2:
             if isinstance(msgname_or_error, bytes):
-                msgname_or_error = msgname_or_error.decode(
+                try:
+                    msgname_or_error = msgname_or_error.decode(
                                                    self.default_string_encoding)
+                except UnicodeDecodeError:
+                    raise ValidationError(msgname_or_error,
+                                                      "Invalid method name %r")
 
         if msgtype == MessagePackRpc.MSGPACK_REQUEST:
             assert message == MessagePackRpc.REQUEST
